@@ -47,12 +47,12 @@ IFACE_NAME = {"legacy": "cuqi.sampler.Conjugate", "exp": "cuqi.experimental.mcmc
 GRID = [0.1, 0.5, 1.0, 2.0, 7.0, 30.0]
 GRID_EXT = GRID + [500.0, 2000.0, 8000.0]
 GAMMA_PARAMS = [(a, b) for a in (0.5, 1.0, 3.0) for b in (1e-4, 1.0, 2.0)]
-GAUSS_PARAM = ["cov=1/s", "cov=1.0/s", "prec=s", "prec=s*ones"]
+GAUSS_PARAM = ["cov=1/s", "cov=1.0/s", "prec=s", "prec=s*ones", "cov=1/s,mean=scalar", "prec=s,mean=scalar"]
 BCS = ["zero", "neumann", "periodic"]
 DRAW = 1.25     # the scripted answer of every Gamma request
 
 UNSUPPORTED = ["cov=s", "cov=1/s**2", "prec=s**2", "prec=2*s", "sqrtprec=sqrt(s)", "cov=C/s", "cov=1/s+1",
-               "mean-and-cov", "mean-only", "gamma-2dim", "prior-uniform", "prior-lognormal",
+               "mean-and-cov", "mean-only", "gamma-2dim", "gamma-2dim-by-geometry", "prior-uniform", "prior-lognormal",
                "prec=min(s,1000)", "cov=1/min(s,1000)", "gmrf-prec=d**2", "gmrf-prec=1/d", "prec=s+1"]
 
 DIRECT = ["gauss-scalar-cov", "gauss-full-cov", "gauss-prec", "gauss-sqrtcov", "gauss-sqrtprec", "gmrf-zero",
@@ -181,6 +181,14 @@ def _residuals(n, k, nres):
 def _gauss_target(par, n, mean, data, a, b):
     from cuqi.distribution import Gamma, Gaussian, JointDistribution
     s = Gamma(a, b, name="s")
+    if par.endswith(",mean=scalar"):
+        # a scalar mean broadcast over a geometry of size n (stored with length 1 by the library)
+        m0 = float(np.ravel(mean)[0])
+        if par.startswith("cov"):
+            y = Gaussian(m0, cov=lambda s: 1 / s, geometry=n, name="y")
+        else:
+            y = Gaussian(m0, prec=lambda s: s, geometry=n, name="y")
+        return JointDistribution(s, y)(y=data)
     if par == "cov=1/s":
         y = Gaussian(mean, cov=lambda s: 1 / s, name="y")
     elif par == "cov=1.0/s":
@@ -318,6 +326,10 @@ def _unsupported_target(case, n, k, a, b):
         s = Gamma(np.array([a, a + 1.0]), np.array([b, b + 0.5]), name="s")
         y = Gaussian(np.zeros(2) + mean[:2], prec=lambda s: s, name="y")
         data = data[:2]
+    elif case == "gamma-2dim-by-geometry":
+        s = Gamma(a, b, geometry=2, name="s")      # scalar shape/rate, dimension 2 through the geometry
+        y = Gaussian(np.zeros(2) + mean[:2], cov=lambda s: 1 / s, name="y")
+        data = data[:2]
     elif case == "prior-uniform":
         s = Uniform(0.05, 40.0, name="s")
         y = Gaussian(mean, cov=lambda s: 1 / s, name="y")
@@ -359,6 +371,12 @@ def _eval_unsupported(cell, res):
                 res.outcomes.add("rejected:" + type(e).__name__)
                 continue
             # accepted: it must then be exact
+            if case.startswith("gamma-2dim"):
+                # the statement names the non-scalar Gamma explicitly: it must be rejected, whatever is then drawn
+                res.outcomes.add("accepted-nonscalar-gamma")
+                res.fail("C10|%s|accepts-unsupported|%s" % (comp, case), "a posterior whose Gamma-distributed hyper-parameter has "
+                         "dimension 2 was accepted (step returned %r)" % (outs[:1],), focus={"case": case, "n": n, "prior": [a, b]})
+                continue
             if len(cap) != 1:
                 res.outcomes.add("accepted-without-gamma-request")
                 res.fail("C10|%s|unsupported|%s,no-gamma-request" % (comp, case),
@@ -380,9 +398,9 @@ def _eval_unsupported(cell, res):
                 # legacy: one root cause (no structural validation at all) -> one signature
                 # new interface: one signature per hole of the validation; the clipped dependences share theirs
                 # (they coincide with the identity / reciprocal at the three points the validation probes)
-                sig = ("C10|%s|accepts-unsupported|inexact" % comp if iface == "legacy"
-                       else "C10|%s|accepts-unsupported|%s" %
-                       (comp, "agrees-at-probe-points" if "min(" in case else case))
+                # one signature per unsupported dependence that slips through (the clipped dependences of the new
+                # interface share theirs: they coincide with the identity / reciprocal at the three probed points)
+                sig = "C10|%s|accepts-unsupported|%s" % (comp, "agrees-at-probe-points" if ("min(" in case and iface != "legacy") else case)
                 res.fail(sig, "unsupported dependence %r accepted and sampled approximately: drew Gamma(shape=%r, "
                          "rate=%r) but log-ratio to the target's own density varies over t=%s by %s" %
                          (case, info.get("shape"), info.get("rate"), grid, np.round(info.get("diff", 0), 6)),
